@@ -233,6 +233,11 @@ func VH_Revisions(a []int) {
 	set := vNewSet(0)
 	tmpl := []string{"A", "B", "C"}[sym.Pick("template", 3)]
 	set.Spec.Template.Annotations[vVariantK] = tmpl
+	if opts&4 != 0 {
+		// a small history limit: trimming must never remove the revision the status names
+		lim := int32(sym.Pick("historyLimit", 2))
+		set.Spec.RevisionHistoryLimit = &lim
+	}
 	switch sym.Pick("collisionCount", 3) {
 	case 1:
 		cc := int32(0)
@@ -382,7 +387,9 @@ func VH_Revisions(a []int) {
 		sym.Cover("new template")
 		sym.Assert(updates == 0 && creates >= 1, "C08", "a new template creates a revision")
 	}
-	sym.Assert(others == 0, "C08", "no revision is deleted or patched here")
+	if opts&4 == 0 {
+		sym.Assert(others == 0, "C08", "no revision is deleted or patched here")
+	}
 	if collide {
 		sym.Assert(!squatWritten, "C08", "a colliding revision of different data is never overwritten")
 		for _, r := range w.apiRevs {
